@@ -32,7 +32,26 @@ def quantity_value(v):
     return None, None
 
 
+_NESTED = [False]
+
+
 def run(chk):
+    if not _NESTED[0]:
+        try:
+            _NESTED[0] = True
+            # the trapezoid must come out the same without std (no_std + alloc + libm, K2): the sign choice goes through Quantity::abs,
+            # which has a separate implementation there
+            import rules.C19 as C19
+            before = len(chk.violations)
+            C19.run_rules_under(chk, "K2", ["C07"])
+            for v in chk.violations[before:]:
+                parts = v["key"].split(":")
+                if v["rule"] == "C19.E" and len(parts) >= 2:
+                    v["rule"] = parts[1]
+                v["what"] = "[no_std + alloc + libm] " + v["what"]
+            chk.configs.append("K2")
+        finally:
+            _NESTED[0] = False
     prog = load_config("K1")
     chk.configs.append("K1")
     chk.rule("C07.kinematics", "d/dt p = v, d/dt v = a per phase; acceleration in {+a, 0, -a}")
